@@ -19,7 +19,8 @@ CFG = {
                      "and that every read fits bufio's free space (4096 bytes; the harness reads at most 4000)",
                      "uniseg is a parameter (clusterAt, widths), computed by the harness with the real library; its prefix hypothesis, the Respects hypothesis (never joins a C0 control: counter oracle-joins-c0 = 0) "
                      "and the width hypothesis of print_width (verdict W!) are checked per case",
-                     "extractor recognition of action bodies is by local variable name (a pure rename degrades to unknown: false alarm, never a miss)"],
+                     "extractor recognition of statements is by their printed source after the receiver, parameters and local variables have been renamed canonically in declaration order (round 4: a pure rename of locals no longer alarms); "
+                     "an unknown statement degrades to .unknown + a 'fully recognised' theorem: a false alarm at worst, never a miss"],
     "assumptions": ["the cluster oracle never extends a cluster over a C0 control (uniseg GB4/GB5) - hypothesis Respects of the whole-stream theorems (needed: chunk_independent_needs_c0_oracle); text_blocks and text_conserved need no hypothesis",
                     "the width uniseg reports for a first cluster, when not 0, is StringWidth of that cluster (hypothesis of print_width)"],
     "level_text": "Proved for all states/runes/streams: regenerated transition table = Williams VT500 table + extensions (all 16 state functions x every rune and eof); "
